@@ -134,10 +134,25 @@ func parseRender(name, src string) string {
 	return string(b)
 }
 
+// sqlFor: the SQL text a run carries depends on its message, so that concurrent runs feed different statements to sql_cover -
+// among them ones whose reading depends on how backslashes inside string literals are treated (an engine that remembered
+// the last reading across calls would make one run's result depend on another's)
+func sqlFor(msg string) string {
+	switch msg {
+	case "zzz 7":
+		return `SELECT * FROM audit WHERE path = 'C:\logs\' AND note = ' -- rotated'`
+	case "abc 12":
+		return `SELECT * FROM files WHERE dir = 'C:\'`
+	case "nomatch":
+		return `select 'it\'s' from t`
+	}
+	return "select * from t where id = 42"
+}
+
 // canonical result of one run of the shared main script on a private point
 func sharedRun(sc *plruntime.Script, msg string, sig plruntime.Signal) string {
 	pt := input.GetPoint()
-	input.InitPt(pt, "m", map[string]string{"t": "v"}, map[string]any{"message": msg, "f": int64(1), "q": "select * from t where id = 42", "ts": "2021-03-04 05:06:07",
+	input.InitPt(pt, "m", map[string]string{"t": "v"}, map[string]any{"message": msg, "f": int64(1), "q": sqlFor(msg), "ts": "2021-03-04 05:06:07",
 		"dt": int64(1614834367123), "xm": "<a><b>v</b></a>", "u": "a%20b", "js": "[1, 2]"}, fixedTime)
 	err := sc.Run(pt, sig)
 	s := fmt.Sprintf("err=%v fields=%s tags=%s", errStr(err), showVal(map[string]any(pt.Fields)), fmt.Sprint(pt.Tags))
@@ -163,7 +178,7 @@ func raceRun(args []string) (any, error) {
 		return nil, err
 	}
 	rng := rand.New(rand.NewSource(*seed))
-	msgs := []string{"abc 12", "zzz 7", "nomatch", "w 0"}
+	msgs := []string{"zzz 7", "abc 12", "nomatch", "w 0"} // reference results are taken in this order (see sqlFor)
 	sum := &Summary{Extra: map[string]any{}}
 	// cold start: the very first parses, loads and runs of this process happen concurrently (tables built on first use,
 	// one-time initialisation, pools that are still empty); their results are compared with the sequential ones below
